@@ -12,6 +12,7 @@ mod sched;
 mod tp;
 mod util;
 mod viol;
+mod wl_access;
 mod wl_core;
 mod wl_kinds;
 mod wl_life;
@@ -41,6 +42,7 @@ fn main() {
         "seq" => cmd_seq(&args),
         "prog" => cmd_prog(&args),
         "wrap" => cmd_wrap(&args),
+        "access" => cmd_access(&args),
         "kinds" => cmd_kinds(&args),
         "selftest" => cmd_selftest(&args),
         other => {
@@ -441,6 +443,46 @@ fn cmd_wrap(a: &Args) -> i32 {
     runner::count("distinct_nontrivial", hashes.len() as u64);
     runner::count("wrap.cells_distinct", runner::with(|r| r.distinct.len() as u64));
     runner::count("wrap.wraps_inside_nested_replacement_load", sched::WRAPS_IN_PAYALL.load(std::sync::atomic::Ordering::Relaxed));
+    0
+}
+
+/// Access / Map projections (C17). Keys: mode, execs, seed, shard.
+fn cmd_access(a: &Args) -> i32 {
+    let mode = match a.str("mode", "token").as_str() {
+        "token" => Mode::Token,
+        "free" => Mode::Free,
+        _ => panic!("mode=token|free"),
+    };
+    sched::set_mode(mode);
+    sched::set_free_intensity(a.u64("intensity", 24) as u32);
+    let execs = a.u64("execs", 500);
+    let seed = a.u64("seed", 1);
+    let shard = a.u64("shard", 0);
+    runner::start_watchdog(a.u64("stall_s", 30));
+    let mut hashes = std::collections::HashSet::new();
+    for n in 0..execs {
+        let exec_no = shard * 10_000_000 + n + 1;
+        let wseed = util::mix(seed.wrapping_mul(0x6000_000D), exec_no);
+        let sseed = util::mix(wseed, 0x5EED);
+        let o = if exec_no % 2 == 0 {
+            wl_access::run_exec::<FillFastSlots>(wseed, sseed, mode, exec_no)
+        } else {
+            wl_access::run_exec::<DefaultStrategy>(wseed, sseed, mode, exec_no)
+        };
+        runner::with(|r| {
+            r.execs += 1;
+            r.ops += o.ops as u64;
+        });
+        hashes.insert(o.trace_hash);
+        if runner::with(|r| r.violations.len()) >= 5 {
+            break;
+        }
+    }
+    runner::count("distinct_nontrivial", hashes.len() as u64);
+    let live = wl_access::ROOTS_LIVE.load(std::sync::atomic::Ordering::SeqCst);
+    if live != 0 {
+        runner::violation("C02", "leak", format!("{} root value(s) alive after everything was dropped", live), &json!({"workload": "access", "seed": seed, "shard": shard}));
+    }
     0
 }
 
